@@ -142,6 +142,46 @@ def Iter.next (it : Iter) : Option Lut × Iter :=
     let r := nextInplace it.lut.n it.lut.t
     (some it.lut, ⟨{ it.lut with t := r.1 }, r.2⟩)
 
+/-! ### the provided methods of `Iterator`, as the standard library defines them on top of `next`
+
+`LutIterator` / `StaticLutIterator` implement `next` only, so `nth`, `skip`, `step_by`, `count`,
+`last`, `min`, `max`, `fold` are the library's defaults.  They are modelled here so that an
+override of one of them in the crate is compared with what the default does. -/
+
+/-- the iterator after `k` calls of `next` (an exhausted iterator stays where it is) -/
+def Iter.advance (it : Iter) : Nat → Iter
+  | 0 => it
+  | k + 1 => (it.next.2).advance k
+
+/-- `Iterator::nth(k)`: skip `k` items, return the next one -/
+def Iter.nth (it : Iter) (k : Nat) : Option Lut × Iter := (it.advance k).next
+
+/-- `step_by(step)`, first `cnt` polls: the first poll is `next`, every later one `nth(step - 1)` -/
+def Iter.stepBy (it : Iter) (step : Nat) : Nat → Bool → List (Option Lut)
+  | 0, _ => []
+  | cnt + 1, first =>
+    let r := if first then it.next else it.nth (step - 1)
+    r.1 :: Iter.stepBy r.2 step cnt false
+
+/-- all remaining items (at most `fuel` of them) and the iterator after them -/
+def Iter.rest (it : Iter) : Nat → List Lut × Iter
+  | 0 => ([], it)
+  | fuel + 1 =>
+    match it.next with
+    | (none, it') => ([], it')
+    | (some l, it') => let r := Iter.rest it' fuel; (l :: r.1, r.2)
+
+/-- `Iterator::max` (the last of the greatest elements) / `Iterator::min` (the first of the least) -/
+def maxOf (ls : List Lut) : Option Lut :=
+  ls.foldl (fun acc x => match acc with
+    | none => some x
+    | some a => if cmp a x == .gt then some a else some x) none
+
+def minOf (ls : List Lut) : Option Lut :=
+  ls.foldl (fun acc x => match acc with
+    | none => some x
+    | some a => if cmp a x == .gt then some x else some a) none
+
 /-- hook `verif_next`: one successor step -/
 def verifNext (l : Lut) : Lut × Bool :=
   let r := nextInplace l.n l.t
